@@ -1412,7 +1412,7 @@ def gen_smb(runner, tier, seed):
     pl = []
     dialect_pool = [b"PC NETWORK PROGRAM 1.0", b"LANMAN1.0", b"Windows for Workgroups 3.1a", b"LM1.2X002", b"LANMAN2.1", b"NT LM 0.12",
                     b"SMB 2.002", b"SMB 2.???", b"FOO", b"x"]
-    n = 40 if tier == "quick" else 400
+    n = 40 if tier == "quick" else 4000
     for k in range(n):
         ds = r.sample(dialect_pool, r.randrange(1, 9))
         if r.random() < 0.3:
@@ -1442,7 +1442,7 @@ def gen_smb(runner, tier, seed):
     # the usual conversation: negotiate, then session setup(s), each NetBIOS message in its own segment
     s = runner.session(cfg_plain(), "smb conversations on one flow")
     flows = []
-    for i in range(24 if tier == "quick" else 400):
+    for i in range(24 if tier == "quick" else 3000):
         fam = i % 2
         hdr = dict(mid=r.randrange(65536), uid=r.randrange(65536), tid=r.randrange(65536)) if fam == 0 else \
             dict(message_id=r.randrange(1 << 62), session_id=r.randrange(1 << 62))
